@@ -16,6 +16,7 @@
 package cmd
 
 import (
+	"errors"
 	"context"
 	"fmt"
 	"os"
@@ -203,6 +204,13 @@ func (i incrementalFactory) New(ctx context.Context) gossip.Task {
 		timer := prometheus.NewTimer(QedMonitorBatchesProcessSeconds)
 		defer timer.ObserveDuration()
 
+		// the batch was decoded from the gossip network: it may be empty or
+		// hold entries without a snapshot
+		n := len(b.Snapshots)
+		if n == 0 || b.Snapshots[0] == nil || b.Snapshots[0].Snapshot == nil ||
+			b.Snapshots[n-1] == nil || b.Snapshots[n-1].Snapshot == nil {
+			return errors.New("monitor: empty or malformed batch")
+		}
 		firstSnap := balloon.Snapshot(*b.Snapshots[0].Snapshot)
 		lastSnap := balloon.Snapshot(*b.Snapshots[len(b.Snapshots)-1].Snapshot)
 
